@@ -14,9 +14,9 @@ TABLE = [
  ("registry","RegCalls",    "RegMenu",    "Genesis0",     '{"eth"}',        "Mods0",         (3, 2, 1), (4, 2, 2)),
  ("admin",   "AdmCalls",    "AdmMenu",    "Genesis0",     '{"eth"}',        "Mods0",         (2, 3, 1), (3, 3, 2)),
  ("strings", "StrCalls",    "StrMenu",    "Genesis0",     '{"eth"}',        "Mods0",         (1, 3, 1), (1, 3, 2)),
- ("routeacc","RouteCalls",  "RouteMenu",  "Genesis0",     '{"eth"}',        "ModsAcceptAll", (1, 2, 1), (1, 2, 2)),
- ("routemix","RouteCalls",  "RouteMenu",  "Genesis0",     '{"eth"}',        "ModsMixed",     (1, 2, 1), (1, 2, 2)),
- ("routefail","RouteCalls", "RouteMenu",  "Genesis0",     '{"eth"}',        "Mods0",         (1, 2, 1), (1, 2, 2)),
+ ("routeacc","RouteCalls",  "RouteMenu",  "GenesisRoute",     '{"eth"}',        "ModsAcceptAll", (1, 3, 1), (1, 3, 2)),
+ ("routemix","RouteCalls",  "RouteMenu",  "GenesisRoute",     '{"eth"}',        "ModsMixed",     (1, 3, 1), (1, 3, 2)),
+ ("routefail","RouteCalls", "RouteMenu",  "GenesisRoute",     '{"eth"}',        "Mods0",         (1, 3, 1), (1, 3, 2)),
 ]
 for name, calls, menu, gen, den, mods, q, t in TABLE:
     for tier, (maxtx, fuel, level) in (("quick", q), ("thorough", t)):
